@@ -699,23 +699,29 @@ impl RefRunning {
     }
     /// verdict for this RDH: is an E11 required / forbidden / unspecified
     pub fn step(&mut self, r: &Rdh) -> Verdict {
+        self.step_reasons(r).overall()
+    }
+
+    /// per-reason verdicts (the E11 message lists its reasons, each one is a documented rule of its own)
+    pub fn step_reasons(&mut self, r: &Rdh) -> RunningReasons {
         // the page increment is learnt from the second RDH of the link (sequences in the domain
         // start with pages 0,1 so it is 1; kept general to mirror the documented "increment")
         if self.n_seen == 1 {
             self.increment = r.pages_counter as u32;
         }
         self.n_seen += 1;
-        let mut required = false;
-        let mut free = false;
+        let mut out = RunningReasons::default();
         let page = r.pages_counter as u32;
         match r.stop_bit {
             0 | 1 => {
                 let ok_for: Vec<bool> = self.expected.iter().map(|e| (*e & 0xFFFF) == page).collect();
-                if ok_for.iter().all(|x| !*x) {
-                    required = true;
+                out.page = if ok_for.iter().all(|x| !*x) {
+                    Verdict::Required
                 } else if !ok_for.iter().all(|x| *x) {
-                    free = true;
-                }
+                    Verdict::Free
+                } else {
+                    Verdict::Forbidden
+                };
                 if r.stop_bit == 0 {
                     let inc = self.increment;
                     for e in self.expected.iter_mut() {
@@ -726,7 +732,7 @@ impl RefRunning {
                 }
             }
             _ => {
-                required = true;
+                out.stop_bit = Verdict::Required;
                 // what is expected next is unspecified: keep, incremented, or reset
                 let mut n = vec![];
                 for e in &self.expected {
@@ -740,23 +746,76 @@ impl RefRunning {
             }
         }
         if let Some(p) = &self.prev {
+            // only a stop bit of exactly 1 closes an HBF and demands a new orbit
             if p.stop_bit == 1 && p.orbit == r.orbit {
-                required = true;
+                out.orbit_same = Verdict::Required;
             }
-            if r.pages_counter != 0
-                && (p.orbit != r.orbit || p.trigger_type != r.trigger_type || p.fee_id != r.fee_id)
-            {
-                required = true;
+            if r.pages_counter != 0 {
+                if p.orbit != r.orbit {
+                    out.orbit_changed = Verdict::Required;
+                }
+                if p.trigger_type != r.trigger_type {
+                    out.trigger_changed = Verdict::Required;
+                }
+                if p.fee_id != r.fee_id {
+                    out.fee_changed = Verdict::Required;
+                }
             }
         }
         self.prev = Some(r.clone());
-        if required {
+        out
+    }
+}
+
+/// one verdict per documented running rule; the markers are the phrases of the E11 message
+#[derive(Clone, Copy, Debug, PartialEq, Eq)]
+pub struct RunningReasons {
+    pub page: Verdict,
+    pub stop_bit: Verdict,
+    pub orbit_same: Verdict,
+    pub orbit_changed: Verdict,
+    pub trigger_changed: Verdict,
+    pub fee_changed: Verdict,
+}
+
+impl Default for RunningReasons {
+    fn default() -> Self {
+        RunningReasons { page: Verdict::Forbidden, stop_bit: Verdict::Forbidden, orbit_same: Verdict::Forbidden, orbit_changed: Verdict::Forbidden, trigger_changed: Verdict::Forbidden, fee_changed: Verdict::Forbidden }
+    }
+}
+
+impl RunningReasons {
+    pub fn list(&self) -> [(&'static str, &'static str, Verdict); 6] {
+        [
+            ("page-counter", "pages_counter = ", self.page),
+            ("stop-bit", "stop_bit = ", self.stop_bit),
+            ("orbit-same-after-stop", "Orbit same as previous", self.orbit_same),
+            ("orbit-changed-in-hbf", "Orbit changed from", self.orbit_changed),
+            ("trigger-changed-in-hbf", "Trigger type changed from", self.trigger_changed),
+            ("fee-changed-in-hbf", "FeeId changed from", self.fee_changed),
+        ]
+    }
+    pub fn overall(&self) -> Verdict {
+        let l = self.list();
+        if l.iter().any(|x| x.2 == Verdict::Required) {
             Verdict::Required
-        } else if free {
+        } else if l.iter().any(|x| x.2 == Verdict::Free) {
             Verdict::Free
         } else {
             Verdict::Forbidden
         }
+    }
+    /// compare with the text of an E11 message ("" = no message); returns the first disagreeing rule
+    pub fn disagrees(&self, e11_text: &str) -> Option<(&'static str, bool)> {
+        for (name, marker, v) in self.list() {
+            let got = e11_text.contains(marker);
+            match v {
+                Verdict::Required if !got => return Some((name, false)),
+                Verdict::Forbidden if got => return Some((name, true)),
+                _ => {}
+            }
+        }
+        None
     }
 }
 
